@@ -4009,6 +4009,9 @@ class ControlConnection(object):
                 self._cluster.remove_host(old_host)
 
         log.debug("[control connection] Finished fetching ring info")
+        if partitioner and not should_rebuild_token_map:
+            # same hosts, but a node may own other tokens than the ones the map was built from
+            should_rebuild_token_map = self._cluster.metadata.token_ownership_differs(token_map)
         if partitioner and should_rebuild_token_map:
             log.debug("[control connection] Rebuilding token map due to topology changes")
             self._cluster.metadata.rebuild_token_map(partitioner, token_map)
